@@ -92,9 +92,15 @@ impl<D, E> MultipartStream<D, E> {
 //@item src/serving.rs :: enum ServeInner
 
 // ======================= oracle: written from C01-C06, C13-C15 =======================
+/// C14: the served Last-Modified never exceeds the Date and is the modification time unless that lies in the future;
+/// times before the epoch (not representable as an HTTP date) are served as the epoch.
+spec fn served_last_modified(m: SystemTime) -> SystemTime {
+    let c = stub::st_min_s(m, stub::clock_now());
+    if c.secs < 0 { SystemTime { secs: 0, nanos: 0 } } else { c }
+}
 spec fn common_hdrs<D, E>(ent: &EntityRef<D, E>) -> Seq<(HeaderName, HV)> {
     let a = seq![(HeaderName::ACCEPT_RANGES, HV::Static("bytes"@))];
-    let b = match e_lm(ent) { Some(m) => a.push((HeaderName::DATE, HV::Date(stub::clock_now()))).push((HeaderName::LAST_MODIFIED, HV::Date(stub::st_min_s(m, stub::clock_now())))), None => a };
+    let b = match e_lm(ent) { Some(m) => a.push((HeaderName::DATE, HV::Date(stub::clock_now()))).push((HeaderName::LAST_MODIFIED, HV::Date(served_last_modified(m)))), None => a };
     match e_etag(ent) { Some(e) => b.push((HeaderName::ETAG, e.v@)), None => b }
 }
 spec fn is_tag_form(b: Seq<u8>) -> bool { (b.len() >= 1 && b[0] == 0x22u8) || (b.len() >= 3 && b[0] == 0x57u8 && b[1] == 0x2fu8 && b[2] == 0x22u8) }
